@@ -21,7 +21,7 @@ import (
 type Param struct {
 	Name string `json:"name"`
 	Kind string `json:"kind"` // string float int bool obj:<key>:<string|int|float> nil slice int32 uint nan
-	Str  string `json:"str,omitempty"`
+	Str  core.RawStr `json:"str,omitempty"`
 }
 
 type C04Plan struct {
@@ -31,6 +31,9 @@ type C04Plan struct {
 	Params  []Param        `json:"params,omitempty"`
 	Stream  simstream.Plan `json:"stream"`
 	BufSize int            `json:"buf_size"`
+	// Session: further texts parsed afterwards in the same process through plain in-memory readers
+	// (a server parses many queries; process-wide state left behind by one must not hurt the next)
+	Session []core.RawStr `json:"session,omitempty"`
 	// Doubling family: Unit repeated N and 2N times between Pre and Post (Text unused)
 	Doubling bool   `json:"doubling,omitempty"`
 	Pre      string `json:"pre,omitempty"`
@@ -62,7 +65,7 @@ func (C04) Meta() core.Meta {
 		},
 		Real:       []string{"influxql scanner, parser, printers, Walk, Clone (instrumented copy of the working tree)", "bufio.Reader, regexp, strconv, time.LoadLocation"},
 		Stub:       []string{"input source (simstream.Stream)"},
-		ProbeNames: []string{"cut-inside-token", "pushback-depth-2", "bufio-refill", "entry:query", "entry:statement", "entry:expr", "entry:statements", "params", "doubling", "accepted", "rejected", "noncontract", "truncation-compared", "delivery-compared", "deep-nesting"},
+		ProbeNames: []string{"cut-inside-token", "pushback-depth-2", "bufio-refill", "entry:query", "entry:statement", "entry:expr", "entry:statements", "params", "doubling", "accepted", "rejected", "noncontract", "truncation-compared", "delivery-compared", "deep-nesting", "session-parse"},
 		FaultNames: []string{"short-read", "zero-read", "end:err", "end:unexpected-eof", "end:data+eof", "end:data+err", "transient", "eof-then-more", "stall"},
 	}
 }
@@ -80,7 +83,7 @@ var specials = []string{"'", "\"", "/", "\\", "*", "$", "\r", "\n", "\x00", "\xf
 func Soup(r *core.Rand, n int) string {
 	toks := []string{"SELECT", "FROM", "WHERE", "GROUP", "BY", "AND", "OR", "time", "*", "+", "-", "/", "%", "&", "|", "^", "=", "!=", "<>", "<", "<=", ">", ">=", "=~", "!~", "(", ")", ",", ";", ":", "::", ".", "..",
 		"foo", "_x1", "\"quoted id\"", "\"a\\\"b\"", "'str'", "'it\\'s'", "'bad\\q'", "'unterminated", "\"unterminated", "123", "1.5", ".5", "1.", "10s", "1h30m", "5µ", "1u", "9223372036854775808", "$p0", "$", "$ x", "true", "false",
-		"/re/", "/a\\/b/", "/unterminated", "-- line comment\n", "/* block */", "/* unterminated", " ", "\t", "\n", "\r\n", "\r", "é", "日本", "\xff", "\x00", "DISTINCT", "AS", "INTO", "fill(", "TZ(", "ON", "LIMIT", "field", "tag", "INF", "EXPLAIN", "SHOW", "KEY", "IN", "WITH"}
+		"/re/", "/a\\/b/", "/unterminated", "/web(/", "/[/", "/a{2,1}/", "=~ /x(/", "=~ /ok/", "-- line comment\n", "/* block */", "/* unterminated", " ", "\t", "\n", "\r\n", "\r", "é", "日本", "\xff", "\x00", "DISTINCT", "AS", "INTO", "fill(", "TZ(", "ON", "LIMIT", "field", "tag", "INF", "EXPLAIN", "SHOW", "KEY", "IN", "WITH"}
 	var b strings.Builder
 	for i := 0; i < n; i++ {
 		b.WriteString(toks[r.Intn(len(toks))])
@@ -127,7 +130,7 @@ func min(a, b int) int {
 func genParams(r *core.Rand) []Param {
 	n := r.Weighted([]int{5, 3, 2, 1, 1})
 	var ps []Param
-	strs := []string{"x", "select", "it's", "a;b", "'; DROP DATABASE x; --", "/* c */", "10s", "1e400", "", "日本", "\x00", "a\\", "/re/", "(?i)a", "[", "5", "true", "$p0", "\"q\"", "99999999999999999999d", "1ns"}
+	strs := []string{"x", "select", "it's", "a;b", "'; DROP DATABASE x; --", "/* c */", "10s", "1e400", "", "日本", "\x00", "a\\", "/re/", "(?i)a", "[", "5", "true", "$p0", "\"q\"", "99999999999999999999d", "1ns", "1\xc2", "10m5\xc2", "\xc2", "1\xb5", "5µ", "1µs", "web(", "a{2,1}", "(?P<n", "1h\x00"}
 	for i := 0; i < n; i++ {
 		p := Param{Name: "p" + strconv.Itoa(r.Intn(3))}
 		if r.Chance(1, 10) {
@@ -135,25 +138,61 @@ func genParams(r *core.Rand) []Param {
 		}
 		switch r.Intn(12) {
 		case 0, 1:
-			p.Kind, p.Str = "string", r.Pick(strs)
+			p.Kind, p.Str = "string", core.RawStr(r.Pick(strs))
 		case 2:
-			p.Kind, p.Str = "float", r.Pick([]string{"1.5", "-2", "1e308", "0", "NaN", "+Inf", "-Inf", "1e-320"})
+			p.Kind, p.Str = "float", core.RawStr(r.Pick([]string{"1.5", "-2", "1e308", "0", "NaN", "+Inf", "-Inf", "1e-320"}))
 		case 3:
-			p.Kind, p.Str = "int", r.Pick([]string{"0", "-1", "9223372036854775807", "-9223372036854775808", "42"})
+			p.Kind, p.Str = "int", core.RawStr(r.Pick([]string{"0", "-1", "9223372036854775807", "-9223372036854775808", "42"}))
 		case 4:
-			p.Kind, p.Str = "bool", r.Pick([]string{"true", "false"})
+			p.Kind, p.Str = "bool", core.RawStr(r.Pick([]string{"true", "false"}))
 		case 5:
-			p.Kind, p.Str = "obj:"+r.Pick([]string{"regex", "ident", "identifier", "string", "duration"})+":string", r.Pick(strs)
+			p.Kind, p.Str = "obj:"+r.Pick([]string{"regex", "ident", "identifier", "string", "duration"})+":string", core.RawStr(r.Pick(strs))
 		case 6:
-			p.Kind, p.Str = "obj:"+r.Pick([]string{"float", "number", "int", "integer", "duration", "regex"})+":int", r.Pick([]string{"0", "-5", "9223372036854775807", "-9223372036854775808", "1000000000"})
+			p.Kind, p.Str = "obj:"+r.Pick([]string{"float", "number", "int", "integer", "duration", "regex"})+":int", core.RawStr(r.Pick([]string{"0", "-5", "9223372036854775807", "-9223372036854775808", "1000000000"}))
 		case 7:
-			p.Kind, p.Str = "obj:"+r.Pick([]string{"float", "number", "int", "bogus"})+":float", r.Pick([]string{"1.5", "NaN", "-0"})
+			p.Kind, p.Str = "obj:"+r.Pick([]string{"float", "number", "int", "bogus"})+":float", core.RawStr(r.Pick([]string{"1.5", "NaN", "-0"}))
 		case 8:
 			p.Kind = r.Pick([]string{"nil", "slice", "int32", "uint", "obj2", "obj0", "jsonnum", "jsonnum-bad"})
-			p.Str = r.Pick([]string{"12", "1.5", "abc", "1e999", "99999999999999999999"})
+			p.Str = core.RawStr(r.Pick([]string{"12", "1.5", "abc", "1e999", "99999999999999999999"}))
 		default:
-			p.Kind, p.Str = "string", r.Pick(strs)
+			p.Kind, p.Str = "string", core.RawStr(r.Pick(strs))
 		}
+		ps = append(ps, p)
+	}
+	return ps
+}
+
+// targetedParams binds p0..p2 with values aimed at the positions templates use them in: durations,
+// regexes, identifiers, numbers — each with hostile contents.
+func targetedParams(r *core.Rand) []Param {
+	hostile := []string{"1\xc2", "10m5\xc2", "\xc2", "5µ", "1µs", "1\xb5", "web(", "[", "a{2,1}", "(?P<n", "1h\x00", "", " ", "9999999999999999999999w", "-1h", "1e3s", "0", "'", "\"", "a.b", "select", "10s", "^a$", "UTC", "No/Such_Zone", "../../etc/passwd"}
+	var ps []Param
+	for i := 0; i < 3; i++ {
+		if r.Chance(1, 6) {
+			continue
+		}
+		p := Param{Name: "p" + strconv.Itoa(i)}
+		switch r.Intn(8) {
+		case 0, 1:
+			p.Kind = "obj:duration:string"
+		case 2:
+			p.Kind = "obj:regex:string"
+		case 3:
+			p.Kind = "obj:ident:string"
+		case 4:
+			p.Kind = "obj:string:string"
+		case 5:
+			p.Kind = "string"
+		case 6:
+			p.Kind, p.Str = "obj:duration:int", core.RawStr(r.Pick([]string{"0", "-5", "9223372036854775807", "-9223372036854775808", "1000", "3600000000000"}))
+			ps = append(ps, p)
+			continue
+		case 7:
+			p.Kind, p.Str = "int", core.RawStr(r.Pick([]string{"0", "-1", "5", "9223372036854775807"}))
+			ps = append(ps, p)
+			continue
+		}
+		p.Str = core.RawStr(r.Pick(hostile))
 		ps = append(ps, p)
 	}
 	return ps
@@ -169,13 +208,13 @@ func buildParams(ps []Param) map[string]interface{} {
 		num := func(kind string) interface{} {
 			switch kind {
 			case "int":
-				i, _ := strconv.ParseInt(p.Str, 10, 64)
+				i, _ := strconv.ParseInt(string(p.Str), 10, 64)
 				return i
 			case "float":
-				f, _ := strconv.ParseFloat(p.Str, 64)
+				f, _ := strconv.ParseFloat(string(p.Str), 64)
 				return f
 			}
-			return p.Str
+			return string(p.Str)
 		}
 		switch {
 		case p.Kind == "string", p.Kind == "int", p.Kind == "float":
@@ -188,7 +227,7 @@ func buildParams(ps []Param) map[string]interface{} {
 		case p.Kind == "nil":
 			v = nil
 		case p.Kind == "slice":
-			v = []interface{}{p.Str}
+			v = []interface{}{string(p.Str)}
 		case p.Kind == "int32":
 			v = int32(7)
 		case p.Kind == "uint":
@@ -198,7 +237,7 @@ func buildParams(ps []Param) map[string]interface{} {
 		case p.Kind == "obj0":
 			v = map[string]interface{}{}
 		case p.Kind == "jsonnum", p.Kind == "jsonnum-bad":
-			v = json.Number(p.Str)
+			v = json.Number(string(p.Str))
 		}
 		m[p.Name] = v
 	}
@@ -384,15 +423,28 @@ func (C04) NewPlan(r *core.Rand, tier string, i uint64) interface{} {
 		if r.Chance(1, 3) {
 			t = mutateBytes(r, t)
 		}
+		p.Params = targetedParams(r)
 	}
 	p.Text = t
-	if r.Chance(2, 5) || bytes.Contains(t, []byte("$")) {
+	if p.Params == nil && (r.Chance(2, 5) || bytes.Contains(t, []byte("$"))) {
 		p.Params = genParams(r)
 	}
 	if p.Stream.Chunks == nil {
 		p.Stream = genStreamPlan(r, t, r.Chance(1, 4))
 	}
 	p.Show = strconv.QuoteToASCII(string(t))
+	if r.Chance(1, 5) {
+		for k := r.Range(1, 3); k > 0; k-- {
+			switch r.Intn(4) {
+			case 0:
+				p.Session = append(p.Session, core.RawStr("SELECT f FROM m WHERE t =~ "+r.Pick([]string{"/web(/", "/ok/", "/[/", "/a|b/", "/^x$/"})))
+			case 1:
+				p.Session = append(p.Session, core.RawStr(Soup(r, r.Range(2, 12))))
+			default:
+				p.Session = append(p.Session, core.RawStr(gen.Query(r, o)))
+			}
+		}
+	}
 	return p
 }
 
@@ -641,6 +693,31 @@ func (C04) Exec(pi interface{}) *core.RunResult {
 		res.Probe("noncontract")
 	}
 	_ = delivered
+	// session: later parses in the same process
+	for si, extraR := range p.Session {
+		extra := string(extraR)
+		b2 := int64(c04BudgetA) + int64(c04BudgetB)*int64(len(extra)+paramBytes(p.Params))
+		verifhook.SetBufSize(4096)
+		o2 := parseVia(strings.NewReader(extra), "query", params, b2)
+		res.Steps += o2.steps
+		res.Probe("session-parse")
+		if o2.pan != nil {
+			if o2.pan.Class == "budget" {
+				res.Violate("budget:session", fmt.Sprintf("parse %d of a session (after the texts before it) did not finish within %d steps for %d bytes\nsession text=%s\n%s", si+2, b2, len(extra), strconv.QuoteToASCII(extra), ctx()))
+			} else {
+				res.Violate(o2.pan.Sig(), fmt.Sprintf("parser panicked on parse %d of a session: %s\nstack: %v\nsession text=%s\n%s", si+2, o2.pan.Msg, o2.pan.Stack, strconv.QuoteToASCII(extra), ctx()))
+			}
+		}
+		if o2.shape != "" {
+			res.Violate("result-shape:query", o2.shape+"\nsession text="+strconv.QuoteToASCII(extra))
+		}
+		for _, v := range o2.results {
+			if pan, st2 := useResult(v, 4*b2); pan != nil {
+				res.Steps += st2
+				res.Violate("use-result:"+pan.Sig(), fmt.Sprintf("printing/traversing a result of a session parse panicked: %s\nsession text=%s", pan.Msg, strconv.QuoteToASCII(extra)))
+			}
+		}
+	}
 	if p.Stream.Cut > 0 && p.Stream.Cut < len(text) {
 		res.Probe("cut-inside-token")
 	}
@@ -774,6 +851,21 @@ func (C04) Shrink(pi interface{}) []interface{} {
 			q.Stream.Cut = len(q.Text)
 		}
 		return q
+	}
+	for i := range p.Session {
+		q := cp()
+		q.Session = append(q.Session[:i:i], q.Session[i+1:]...)
+		out = append(out, q)
+	}
+	for i, st := range p.Session {
+		for k, t := range gen.ShrinkText(string(st)) {
+			if k > 40 {
+				break
+			}
+			q := cp()
+			q.Session[i] = core.RawStr(t)
+			out = append(out, q)
+		}
 	}
 	if len(p.Params) > 0 {
 		q := cp()
